@@ -347,6 +347,107 @@ func c07Scenario(id string, g c07Cfg, producers, consumers, perProducer int, sho
 	}}
 }
 
+// back-pressure with a blocking consumer: producers retry on Full until every value is accepted, ONE consumer calls
+// the blocking Take() exactly as many times as there are values. Every Take must return: a Take that has notified the
+// loader and blocks while accepted values sit in the overflow list, with no delivery for 3 s (3000x the loader
+// interval) and the loader parked, is a lost wake-up (nothing-stranded clause).
+func c07BlockingTake(id string, g c07Cfg, producers, perProducer int, seed int64) core.Scenario {
+	return core.Scenario{ID: id, Class: "BufferedChannelQueue", Run: func(c *core.Ctx) {
+		d := director.Get()
+		d.Reset(seed)
+		d.Yield(2, "bcq.loader.inhand", "bcq.loader.checked", "bcq.Offer.pooled", "bcq.Take.checked")
+		q := c07New(g)
+		total := producers * perProducer
+		rec := hist.NewRecorder(producers + 1)
+		var produced, consumed atomic.Int64
+		var stop atomic.Bool
+		var wg sync.WaitGroup
+		for p := 0; p < producers; p++ {
+			wg.Add(1)
+			go func(p int) {
+				defer wg.Done()
+				for k := 1; k <= perProducer && !stop.Load(); k++ {
+					v := hist.Value(p+1, k)
+					for !stop.Load() {
+						i := rec.Begin(p, "offer", v)
+						err := q.Offer(v)
+						rec.End(p, i, 0, resOf(err))
+						if err == nil {
+							produced.Add(1)
+							break
+						}
+						runtime.Gosched()
+					}
+				}
+			}(p)
+		}
+		wg.Add(1)
+		go func() {
+			defer wg.Done()
+			for k := 0; k < total && !stop.Load(); k++ {
+				i := rec.Begin(producers, "take", 0)
+				v, err := q.Take()
+				rec.End(producers, i, v, resOf(err))
+				if err != nil {
+					return
+				}
+				consumed.Add(1)
+			}
+		}()
+		joined := make(chan struct{})
+		go func() { wg.Wait(); close(joined) }()
+		last, lastChange, began := int64(-1), time.Now(), time.Now()
+		stranded := false
+	wait:
+		for {
+			select {
+			case <-joined:
+				break wait
+			case <-time.After(20 * time.Millisecond):
+			}
+			if cur := produced.Load() + consumed.Load(); cur != last {
+				last, lastChange = cur, time.Now()
+			}
+			if time.Since(lastChange) > 3*time.Second {
+				_, dump := core.Dump()
+				held := q.Count()
+				if held > 0 && consumed.Load() < int64(total) {
+					c.Violationf("stranded:blocking-take-never-served", map[string]any{"scenario": id, "config": g.String(), "goroutines": core.RepoGoroutineSummary(dump)},
+						"%s: a blocking Take() waits although %d accepted values are held (accepted=%d delivered=%d); nothing was delivered for 3 s while the producers keep getting ErrQueueIsFull", g, held, produced.Load(), consumed.Load())
+					stranded = true
+				} else {
+					c.Inconclusive("no progress in " + id)
+				}
+				stop.Store(true)
+				q.Close()
+				<-joined
+				break wait
+			}
+			if time.Since(began) > 120*time.Second {
+				c.Inconclusive("watchdog in " + id)
+				stop.Store(true)
+				q.Close()
+				<-joined
+				break wait
+			}
+		}
+		ops := rec.Ops()
+		c.Eval(1)
+		c.Count("ops", int64(len(ops)))
+		c.Count("values_accepted", produced.Load())
+		c.Distinct(id)
+		if !stranded {
+			for class, msg := range hist.ExactlyOnce(ops, consumed.Load() == int64(total), true) {
+				c.Violationf("history:"+class, map[string]any{"scenario": id, "config": g.String(), "history": hist.Describe(ops, 60)}, "%s: %s", g, msg)
+			}
+			if hb := c07HeldBound(ops); hb > g.cap+g.buf {
+				c.Violationf("bound:more-than-cap+buf-held", map[string]any{"scenario": id}, "%s: at some instant %d accepted values had not been handed out yet (bound %d)", g, hb, g.cap+g.buf)
+			}
+			q.Close()
+		}
+	}}
+}
+
 // plain ChannelQueue: bounded FIFO with non-blocking Offer/Poll and timed Put/Take
 func c07ChannelScenario(id string, capacity, procs, opsEach int, seed int64) core.Scenario {
 	return core.Scenario{ID: id, Class: "ChannelQueue", Run: func(c *core.Ctx) {
@@ -469,6 +570,11 @@ func c07Scenarios(c *core.Ctx, race bool) []core.Scenario {
 			p, cn := 1+rng.Intn(4), 1+rng.Intn(4)
 			out = append(out, c07Scenario(fmt.Sprintf("long-%d-%d-%d-%v-p%dc%d-%d-race%v", g.cap, g.buf, ci, g.interval, p, cn, i, race), g, p, cn, longVals/p, false, 0, c.Seed*103+int64(ci*1000+i)))
 		}
+		if g.cap >= 1 {
+			for i := 0; i < c.Pick(2, 8); i++ {
+				out = append(out, c07BlockingTake(fmt.Sprintf("blocking-take-%d-%d-%d-%d-race%v", g.cap, g.buf, ci, i, race), g, 1+(i+ci)%4, c.Pick(400, 3000), c.Seed*113+int64(ci*10+i)))
+			}
+		}
 		if g.buf >= 1 {
 			for dir := 1; dir <= 5; dir++ {
 				for r := 0; r < c.Pick(1, 10); r++ {
@@ -493,7 +599,7 @@ func init() {
 			return core.Meta{
 				Level: "exploration",
 				Rule: "configurations (channelCapacity, bufferSizeMaximum, loader interval) in {0,1,2,3} x {0,1,2,5} x {50us,1ms} (quick: 20 of 32); per configuration short concurrent histories (1..3 producers, 1..3 consumers using Poll / TakeWithTimeout / GetChannel receive, <= 24 ops) checked by porcupine against the relaxed bounded FIFO model (FIFO strict, Offer ok only below cap+buf, Full legal only when the overflow can be at its maximum, Empty/Timeout always legal) and long runs (thousands of unique values, 1..4 x 1..4 goroutines, PRNG yields at loader/Offer/Poll hook points) checked for exactly-once / no invention / no loss after a drain / per-producer order / held <= cap+buf at every instant / Count() <= cap+buf / Count() = accepted-delivered at quiescence; " +
-					"the drain uses only Poll/TakeWithTimeout after producers stopped: stranded = items held and >= 4 complete loader passes since the last successful removal, or no library goroutine able to make progress; directed scenarios park the loader (in hand, after closed check, before sleep), Poll after its wake-up and Offer before its wake-up; plain ChannelQueue histories (Offer/Poll/PutWithTimeout/TakeWithTimeout) against BoundedFIFO; all repeated in the -race build. distinct_nontrivial = distinct scenarios + distinct hook-trace signatures",
+					"the drain uses only Poll/TakeWithTimeout after producers stopped: stranded = items held and >= 4 complete loader passes since the last successful removal, or no library goroutine able to make progress; back-pressure runs (retrying producers against ONE consumer that calls the blocking Take() exactly once per value: a Take left waiting for 3 s while accepted values are held is a lost wake-up); directed scenarios park the loader (in hand, after closed check, before sleep), Poll after its wake-up and Offer before its wake-up; plain ChannelQueue histories (Offer/Poll/PutWithTimeout/TakeWithTimeout) against BoundedFIFO; all repeated in the -race build. distinct_nontrivial = distinct scenarios + distinct hook-trace signatures",
 				Assumptions: []string{"Poll->Empty and TakeWithTimeout->Timeout are always legal for the buffered queue (statement: 'nothing immediately available')",
 					"nothing-stranded and linearizability are only claimed for channelCapacity >= 1; for capacity 0 exactly-once, order and conservation are checked",
 					"the race detector is deciding for queue.go frames (baseline silent)"},
